@@ -22,6 +22,9 @@ structure Hasher where
   deriving DecidableEq, Repr
 
 /-- `NewHasher` / `GetHash`: unknown names are an error -/
+/-- `GetCompressor`: "gz" is the one compressor; every other name is an error -/
+def knownCompressor (name : Bytes) : Bool := name = [103, 122]
+
 def newHasher (name : Bytes) : Res Hasher :=
   if supported name then .ok ⟨name, [], 0⟩ else .error .err
 
